@@ -64,7 +64,7 @@ def run(tier, scratch, t0, replay=None):
     batches = D.build_batches(scratch, [v for v in VERSIONS if v in K.available_interps()], tier, "C13",
                               n_stdlib=6 if quick else 150, n_gen=16 if quick else 300, batch=30, with_corpus=False,
                               gen_snippets=3 if quick else None,
-                              must_templates=["t_set_of_bytes", "t_shared_frozenset", "t_shared_big_tuple", "t_strings", "t_ints", "t_py2_long", "t_floats",
+                              must_templates=["t_opcode_zoo", "t_opcode_zoo2", "t_set_of_bytes", "t_shared_frozenset", "t_shared_big_tuple", "t_strings", "t_ints", "t_py2_long", "t_floats",
                                               "t_complex", "t_bytes", "t_containers", "t_closure"])
 
     def do_batch(b):
